@@ -231,7 +231,7 @@ def _run(chk, tier, bins, gdir):
                 "points of the reference cell; replayed into Evaluator::eval_ref_* with ==.  V: TLC enumerates (spec/MeshGen.tla) every gluing of two reference "
                 "cells (= every relative orientation of a shared facet) and every rotation of one cell, plus factories and shipped unstructured meshes; for every "
                 "family x mesh the real dof mapping, dof assignment, interpolation, evaluation and transformation are observed and judged by spec/ElementCheck.tla "
-                "(NumDofs, MapMatches, AssignMatches, OneIndexPerFunctional, Reproduce, DerivConsistent, Continuous, GradContinuous, FacetMeanContinuous, "
+                "(NumDofs, MapMatches, AssignMatches, OneIndexPerFunctional, Reproduce, ReproduceVectorField (blocked-vector overload, repeated into the same vector), DerivConsistent, Continuous, GradContinuous, FacetMeanContinuous, "
                 "TrafoVolume, InverseMapping).  Isoparametric part (G): spec/IsoTrafo.tla defines the degree-2 map of catalogue quadrilaterals with circle-curved edges "
                 "in all 4 local rotations exactly (integer polynomials) and emits img_point / jac_mat / hess_ten at the lattice points and the exact volume; replayed into "
                 "Trafo::Isoparam (==), plus jac_inv / hess_inv / InverseMapping / Lagrange-1/2 physical gradients and Hessians against the chain rule of the specified tensors.  "
@@ -245,8 +245,8 @@ def _run(chk, tier, bins, gdir):
                        "the local dof count: Lagrange-1/2/3, Discontinuous, Crouzeix-Raviart, Bernstein-2 (axis-parallel cells), Hermite-3 and Argyris on triangles); "
                        "P2-bubble, Rannacher-Turek, Q1~-bnp, CDSSY only on the contained polynomial space; Bogner-Fox-Schmit has no node functionals (no Reproduce)",
                        "DerivConsistent is decided on the reproduced polynomials (exact derivatives of the monomials), not on arbitrary members of the local space",
-                       "non-dyadic families / meshes are judged through stated floating-point tolerances (projection principle); the isoparametric transformation only for quadrilaterals of degree 2 "
-                       "with a circle chart (not degree 3, simplices, hexahedra); dimensions 2 and 3"]
+                       "non-dyadic families / meshes are judged through stated floating-point tolerances (projection principle); the isoparametric transformation only for quadrilaterals: degree 2 with a circle chart exactly, degrees 1-3 without "
+                       "charts against the bilinear map (not: degree 3 with charts, simplices, hexahedra); dimensions 2 and 3"]
 
 
 def replay(obj):
